@@ -711,7 +711,7 @@ pub fn check_state(c: &C, st: &St, exp: &Exp, want: Want) {
             let got = c.peek_entry(&k);
             match (got, want_ent) {
                 (Some((gk, gv)), Some(w)) => {
-                    vassert!([C04, C10, C11], gk.k == k && gv.id == w.vid && gv.heap == w.heap && gk.id == w.kid, "lookup returns a different key/value than the one most recently stored");
+                    vassert!([C04, C10, C11], gk.k == k && gv.id == w.vid && gv.heap == w.heap, "lookup returns a different value than the one most recently stored for the key");
                 }
                 (None, None) => {}
                 (Some((gk, gv)), None) => {
